@@ -585,4 +585,492 @@ theorem wire_cliCloseAfterFrame (s : St) (t : Tid) : wire (cliCloseAfterFrame s 
 @[simp] theorem cliCloseAfterFrame_frames (s : St) (t : Tid) : (cliCloseAfterFrame s t).frames = s.frames :=
   congrArg Wire.frames (wire_cliCloseAfterFrame s t)
 
+theorem wire_flowControl (s : St)  : wire (flowControl s).1 = wire s := by
+  unfold flowControl
+  wire_auto
+@[simp] theorem flowControl_cfg (s : St)  : (flowControl s).1.cfg = s.cfg :=
+  congrArg Wire.cfg (wire_flowControl s)
+@[simp] theorem flowControl_closed (s : St)  : (flowControl s).1.closed = s.closed :=
+  congrArg Wire.closed (wire_flowControl s)
+@[simp] theorem flowControl_wClosing (s : St)  : (flowControl s).1.wClosing = s.wClosing :=
+  congrArg Wire.wClosing (wire_flowControl s)
+@[simp] theorem flowControl_paused (s : St)  : (flowControl s).1.paused = s.paused :=
+  congrArg Wire.paused (wire_flowControl s)
+@[simp] theorem flowControl_frames (s : St)  : (flowControl s).1.frames = s.frames :=
+  congrArg Wire.frames (wire_flowControl s)
+
+/-! ## the wire invariant -/
+
+def closeCount (fs : List Frame) : Nat := (fs.filter Frame.isClose).length
+def hasClose (fs : List Frame) : Bool := fs.any Frame.isClose
+/-- some data frame occurs after some CLOSE frame -/
+def dataAfterClose : List Frame → Bool
+  | [] => false
+  | f :: rest => (f.isClose && rest.any Frame.isData) || dataAfterClose rest
+
+theorem closeCount_append (fs : List Frame) (f : Frame) :
+    closeCount (fs ++ [f]) = closeCount fs + (if f.isClose then 1 else 0) := by
+  unfold closeCount
+  rw [List.filter_append]
+  by_cases h : f.isClose <;> simp [h]
+
+theorem hasClose_append (fs : List Frame) (f : Frame) :
+    hasClose (fs ++ [f]) = (hasClose fs || f.isClose) := by
+  simp [hasClose]
+
+theorem dataAfterClose_append (fs : List Frame) (f : Frame) :
+    dataAfterClose (fs ++ [f]) = (dataAfterClose fs || (hasClose fs && f.isData)) := by
+  induction fs with
+  | nil => simp [dataAfterClose, hasClose]
+  | cons g rest ih =>
+    simp only [List.cons_append, dataAfterClose, ih, hasClose, List.any_cons, List.any_append, List.any_nil,
+      Bool.or_false]
+    cases g.isClose <;> cases (rest.any Frame.isData) <;> cases (dataAfterClose rest) <;>
+      cases (rest.any Frame.isClose) <;> cases f.isData <;> rfl
+
+theorem closeCount_zero_of_not_hasClose (fs : List Frame) (h : hasClose fs = false) : closeCount fs = 0 := by
+  induction fs with
+  | nil => rfl
+  | cons f rest ih =>
+    simp only [hasClose, List.any_cons, Bool.or_eq_false_iff] at h
+    have := ih (by simpa [hasClose] using h.2)
+    simp [closeCount, h.1] at this ⊢
+    exact this
+
+/-- "no back-pressure can separate the CLOSE frame from `_closing`": the repaired writer, or a
+transport that is not write-paused.  `g` switches the two strong clauses off altogether (`g = False`). -/
+def SafeW (g : Prop) (w : Wire) : Prop := g ∧ (w.cfg.fixed = true ∨ w.paused = false)
+
+/-- the wire invariant; parameters: `g` (prove the strong clauses at all), `np` (the run contains no
+`pauseW` label, so `paused` stays false), `c0` (the configuration, which never changes) -/
+structure InvW (g np : Prop) (c0 : Cfg) (w : Wire) : Prop where
+  cfgEq : w.cfg = c0
+  npPaused : np → w.paused = false
+  closed_of_close : hasClose w.frames = true → w.closed = true
+  count : closeCount w.frames ≤ 1
+  wclosing : SafeW g w → hasClose w.frames = true → w.wClosing = true
+  nodata : SafeW g w → dataAfterClose w.frames = false
+
+def Inv (g np : Prop) (c0 : Cfg) (s : St) : Prop := InvW g np c0 (wire s)
+
+variable {g np : Prop} {c0 : Cfg}
+
+theorem Inv_congr {s s' : St} (h : wire s' = wire s) (hi : Inv g np c0 s) : Inv g np c0 s' := by
+  unfold Inv; rw [h]; exact hi
+
+theorem Inv_setClosed {s : St} (hi : Inv g np c0 s) : Inv g np c0 (setClosed s) := by
+  have hw : wire (setClosed s) = { wire s with closed := true } := by
+    unfold setClosed; simp [wire]
+  unfold Inv; rw [hw]
+  exact ⟨hi.cfgEq, hi.npPaused, fun _ => rfl, hi.count, hi.wclosing, hi.nodata⟩
+
+theorem Inv_setWClosing {s : St} (hi : Inv g np c0 s) : Inv g np c0 { s with wClosing := true } :=
+  ⟨hi.cfgEq, hi.npPaused, hi.closed_of_close, hi.count, fun _ _ => rfl, hi.nodata⟩
+
+def Safe (g : Prop) (s : St) : Prop := g ∧ (s.cfg.fixed = true ∨ s.paused = false)
+
+theorem Inv.mk' {s : St} (h0 : s.cfg = c0) (h0' : np → s.paused = false)
+    (h1 : hasClose s.frames = true → s.closed = true) (h2 : closeCount s.frames ≤ 1)
+    (h3 : Safe g s → hasClose s.frames = true → s.wClosing = true)
+    (h4 : Safe g s → dataAfterClose s.frames = false) : Inv g np c0 s := ⟨h0, h0', h1, h2, h3, h4⟩
+theorem Inv.ccfg {s : St} (hi : Inv g np c0 s) : s.cfg = c0 := hi.cfgEq
+theorem Inv.cnp {s : St} (hi : Inv g np c0 s) : np → s.paused = false := hi.npPaused
+theorem Inv.c1 {s : St} (hi : Inv g np c0 s) : hasClose s.frames = true → s.closed = true := hi.closed_of_close
+theorem Inv.c2 {s : St} (hi : Inv g np c0 s) : closeCount s.frames ≤ 1 := hi.count
+theorem Inv.c3 {s : St} (hi : Inv g np c0 s) : Safe g s → hasClose s.frames = true → s.wClosing = true := hi.wclosing
+theorem Inv.c4 {s : St} (hi : Inv g np c0 s) : Safe g s → dataAfterClose s.frames = false := hi.nodata
+
+theorem flowControl_park (s : St) (h : (flowControl s).2 = .park) : s.paused = true := by
+  unfold flowControl at h
+  split at h
+  · split at h
+    · assumption
+    · cases h
+  · cases h
+
+/-- writing a frame that is not CLOSE keeps the invariant, provided `send_frame`'s `_closing` test let it through -/
+theorem Inv_writeFrame {s : St} (fr : Frame) (n : Nat) (hf : fr.isClose = false)
+    (hpass : (s.wClosing && !fr.passesClosing) = false) (hi : Inv g np c0 s) : Inv g np c0 (writeFrame s fr n) := by
+  have e1 : (writeFrame s fr n).frames = s.frames ++ [fr] := rfl
+  have e2 : (writeFrame s fr n).closed = s.closed := rfl
+  have e3 : (writeFrame s fr n).wClosing = s.wClosing := by simp [writeFrame, hf]
+  have e4 : Safe g (writeFrame s fr n) ↔ Safe g s := Iff.rfl
+  apply Inv.mk'
+  · exact hi.ccfg
+  · exact hi.cnp
+  · rw [e1, e2, hasClose_append, hf, Bool.or_false]; exact hi.c1
+  · rw [e1, closeCount_append, hf]; simpa using hi.c2
+  · intro hs; rw [e1, e3, hasClose_append, hf, Bool.or_false]; exact hi.c3 (e4.mp hs)
+  · intro hs
+    have hs' := e4.mp hs
+    rw [e1, dataAfterClose_append, hi.c4 hs', Bool.false_or]
+    cases hcz : hasClose s.frames with
+    | false => rfl
+    | true =>
+      -- a CLOSE frame is on the wire, hence `_closing` is set, hence a data frame was refused
+      have hwc : s.wClosing = true := hi.c3 hs' hcz
+      cases fr with
+      | data => simp [hwc, Frame.passesClosing, Gen.C13.passClosingText] at hpass
+      | ping => rfl
+      | pong => rfl
+      | close c => simp [Frame.isClose] at hf
+
+theorem Inv_sendFrame {s : St} (fr : Frame) (n : Nat) (hf : fr.isClose = false) (hi : Inv g np c0 s) :
+    Inv g np c0 (sendFrame s fr n).1 := by
+  unfold sendFrame
+  split
+  · exact hi
+  · next h1 =>
+    split
+    · exact hi
+    · exact Inv_congr (wire_flowControl _) (Inv_writeFrame fr n hf (by simpa using h1) hi)
+
+/-- the CLOSE frame: written at most once (the caller has just set `closed`, no CLOSE is on the wire yet);
+afterwards either the caller sets `_closing` in the same atomic section, or `send_frame` parked in the
+drain — which needs a write-paused transport — and only the repaired writer has `_closing` set then -/
+theorem Inv_sendFrame_close {s : St} (c n : Nat) (hi : Inv g np c0 s) (hcl : s.closed = true)
+    (hn : hasClose s.frames = false) :
+    Inv g np c0 { (sendFrame s (.close c) n).1 with wClosing := true } ∧
+    ((sendFrame s (.close c) n).2 = .park → Inv g np c0 (sendFrame s (.close c) n).1) := by
+  have hcount := closeCount_zero_of_not_hasClose _ hn
+  unfold sendFrame
+  split
+  · exact ⟨Inv_setWClosing hi, fun h => by cases h⟩
+  · split
+    · exact ⟨Inv_setWClosing hi, fun h => by cases h⟩
+    · generalize hr : flowControl (writeFrame s (.close c) n) = r
+      have e1 : r.1.frames = s.frames ++ [.close c] := by rw [← hr]; simp [writeFrame]
+      have e2 : r.1.closed = true := by rw [← hr]; simp [writeFrame, hcl]
+      have e3 : r.1.wClosing = (s.wClosing || s.cfg.fixed) := by rw [← hr]; simp [writeFrame, Frame.isClose]
+      have e4 : r.1.cfg = s.cfg := by rw [← hr]; simp [writeFrame]
+      have e5 : r.1.paused = s.paused := by rw [← hr]; simp [writeFrame]
+      have hsafe : ∀ w, Safe g { r.1 with wClosing := w } → Safe g s := by
+        intro w h; simpa [Safe, e4, e5] using h
+      have hc : closeCount (s.frames ++ [Frame.close c]) ≤ 1 := by
+        rw [closeCount_append, hcount]; simp [Frame.isClose]
+      have hd : Safe g s → dataAfterClose (s.frames ++ [Frame.close c]) = false := by
+        intro hs; rw [dataAfterClose_append, hi.c4 hs]; simp [Frame.isData]
+      constructor
+      · apply Inv.mk'
+        · exact e4.trans hi.ccfg
+        · intro h; exact e5.trans (hi.cnp h)
+        · intro _; exact e2
+        · show closeCount r.1.frames ≤ 1; rw [e1]; exact hc
+        · intro _ _; rfl
+        · intro hs; show dataAfterClose r.1.frames = false; rw [e1]; exact hd (hsafe _ hs)
+      · intro hp
+        have hpaused : s.paused = true := by
+          have := flowControl_park (writeFrame s (.close c) n) (by rw [hr]; exact hp)
+          simpa [writeFrame] using this
+        apply Inv.mk'
+        · exact e4.trans hi.ccfg
+        · intro h; exact e5.trans (hi.cnp h)
+        · intro _; exact e2
+        · rw [e1]; exact hc
+        · intro hs _
+          have hs' : Safe g s := by simpa [Safe, e4, e5] using hs
+          rcases hs'.2 with h | h
+          · rw [e3, h]; simp
+          · rw [h] at hpaused; cases hpaused
+        · intro hs; rw [e1]; exact hd (by simpa [Safe, e4, e5] using hs)
+
+/-- the state differs from one satisfying `Inv` only outside the wire components -/
+macro "inv_same" h:term : tactic => `(tactic| (refine Inv_congr ?_ $h; simp [wire]; done))
+
+theorem wire_resumeCloseRead (s : St) (t : Tid) (rv : Option Exc) : wire (resumeCloseRead s t rv) = wire s := by
+  unfold resumeCloseRead
+  wire_auto
+
+theorem not_hasClose_of_not_closed {s : St} (hi : Inv g np c0 s) (h : s.closed = false) : hasClose s.frames = false := by
+  cases hc : hasClose s.frames with
+  | false => rfl
+  | true => rw [hi.c1 hc] at h; cases h
+
+theorem Inv_handlePingPongExc {s : St} (e : Exc) (hi : Inv g np c0 s) : Inv g np c0 (handlePingPongExc s e) := by
+  unfold handlePingPongExc
+  split
+  · exact hi
+  · have h1 := Inv_setClosed hi
+    simp only []
+    split <;> split <;> first
+      | inv_same h1
+
+theorem Inv_srvCloseEnter {s : St} (t : Tid) (code : Nat) (drain : Bool) (hi : Inv g np c0 s) :
+    Inv g np c0 (srvCloseEnter s t code drain) := by
+  unfold srvCloseEnter
+  split
+  · exact Inv_congr (wire_closeReturn _ _ _) hi
+  · next hcl =>
+    have hn := not_hasClose_of_not_closed hi (by simpa using hcl)
+    simp only []
+    generalize hs1 : setT (setClosed s) t _ = s1
+    have hi1 : Inv g np c0 s1 := by rw [← hs1]; exact Inv_congr (wire_setT _ _ _) (Inv_setClosed hi)
+    have hc1 : s1.closed = true := by rw [← hs1]; simp [setClosed]
+    have hn1 : hasClose s1.frames = false := by rw [← hs1]; simpa [setClosed] using hn
+    have key := Inv_sendFrame_close code 2 hi1 hc1 hn1
+    split
+    · next hp => exact Inv_congr (wire_park _ _ _) (key.2 hp)
+    · exact Inv_congr (wire_srvCloseExc1 _ _ _) key.1
+    · exact Inv_congr (wire_srvCloseAfterFrame _ _) key.1
+
+theorem Inv_cliCloseAfterWait {s : St} (t : Tid) (code : Nat) (hi : Inv g np c0 s) :
+    Inv g np c0 (cliCloseAfterWait s t code) := by
+  unfold cliCloseAfterWait
+  split
+  · exact Inv_congr (wire_closeReturn _ _ _) hi
+  · next hcl =>
+    have hn := not_hasClose_of_not_closed hi (by simpa using hcl)
+    simp only []
+    generalize hs1 : setT (setClosed s) t _ = s1
+    have hi1 : Inv g np c0 s1 := by rw [← hs1]; exact Inv_congr (wire_setT _ _ _) (Inv_setClosed hi)
+    have hc1 : s1.closed = true := by rw [← hs1]; simp [setClosed]
+    have hn1 : hasClose s1.frames = false := by rw [← hs1]; simpa [setClosed] using hn
+    have key := Inv_sendFrame_close code 2 hi1 hc1 hn1
+    split
+    · next hp => exact Inv_congr (wire_park _ _ _) (key.2 hp)
+    · exact Inv_congr (wire_cliCloseExc _ _ _) key.1
+    · exact Inv_congr (wire_cliCloseAfterFrame _ _) key.1
+
+theorem Inv_cliCloseEnter {s : St} (t : Tid) (code : Nat) (hi : Inv g np c0 s) : Inv g np c0 (cliCloseEnter s t code) := by
+  unfold cliCloseEnter
+  split
+  · inv_same hi
+  · exact Inv_cliCloseAfterWait t code hi
+
+theorem Inv_closeEnter {s : St} (t : Tid) (code : Nat) (drain : Bool) (hi : Inv g np c0 s) :
+    Inv g np c0 (closeEnter s t code drain) := by
+  unfold closeEnter
+  split
+  · exact Inv_srvCloseEnter t code drain hi
+  · exact Inv_cliCloseEnter t code hi
+
+theorem Inv_recvNestedClose {s : St} (t : Tid) (code : Nat) (drain : Bool) (rr : RecvRes) (hi : Inv g np c0 s) :
+    Inv g np c0 (recvNestedClose s t code drain rr) := by
+  unfold recvNestedClose
+  exact Inv_closeEnter t code drain (Inv_congr (wire_setT _ _ _) hi)
+
+theorem Inv_recvExc {s : St} (t : Tid) (e : Exc) (hi : Inv g np c0 s) : Inv g np c0 (recvExc s t e) := by
+  unfold recvExc
+  split <;> first
+    | inv_same hi
+    | exact Inv_recvNestedClose _ _ _ _ (by inv_same hi)
+
+theorem Inv_recvGot {s : St} (t : Tid) (r : Except Exc Msg) (hi : Inv g np c0 s) : Inv g np c0 (recvGot s t r).1 := by
+  unfold recvGot
+  split
+  · exact Inv_recvExc _ _ hi
+  · inv_same hi
+  · inv_same hi
+  · split
+    · simp only []; split
+      · exact Inv_recvNestedClose _ _ _ _ (by inv_same hi)
+      · inv_same hi
+    · simp only []; split
+      · exact Inv_recvNestedClose _ _ _ _ (by inv_same hi)
+      · inv_same hi
+  · split <;> inv_same hi
+  · split
+    · have h1 := Inv_sendFrame (s := s) .pong 0 rfl hi
+      simp only []
+      split
+      · exact h1
+      · inv_same h1
+      · inv_same h1
+    · inv_same hi
+  · split
+    · exact hi
+    · inv_same hi
+
+theorem Inv_recvLoop {s : St} (t : Tid) (fuel : Nat) (hi : Inv g np c0 s) : Inv g np c0 (recvLoop s t fuel) := by
+  induction fuel generalizing s with
+  | zero => unfold recvLoop; inv_same hi
+  | succ n ih =>
+    unfold recvLoop
+    split
+    · inv_same hi
+    · split
+      · split
+        · simp only []; split <;> inv_same hi
+        · inv_same hi
+      · split
+        · split
+          · inv_same hi
+          · exact Inv_recvNestedClose _ _ _ _ hi
+        · simp only []
+          have hi1 : Inv g np c0 (recvBegin s t) := by
+            unfold recvBegin; simp only []; split
+            · split <;> inv_same hi
+            · inv_same hi
+          generalize recvBegin s t = s1 at hi1 ⊢
+          split
+          · split
+            · apply Inv_recvExc; inv_same hi1
+            · inv_same hi1
+          · have hg : Inv g np c0 (recvGot (recvFinally (exitTmo (readFromBuffer s1).1 t none).1) t (readFromBuffer s1).2).1 := by
+              apply Inv_recvGot; inv_same hi1
+            split
+            · exact ih hg
+            · exact hg
+
+theorem Inv_sendStart {s : St} (t : Tid) (fr : Frame) (n : Nat) (hf : fr.isClose = false) (hi : Inv g np c0 s) :
+    Inv g np c0 (sendStart s t fr n) := by
+  unfold sendStart
+  have h1 := Inv_sendFrame (s := s) fr n hf hi
+  simp only []
+  split <;> inv_same h1
+
+theorem Inv_recvAfterRead {s : St} (t : Tid) (r : Except Exc Msg) (hi : Inv g np c0 s) : Inv g np c0 (recvAfterRead s t r) := by
+  unfold recvAfterRead
+  simp only []
+  (repeat' split) <;> first
+    | (apply Inv_recvLoop; apply Inv_recvGot; inv_same hi)
+    | (apply Inv_recvGot; inv_same hi)
+
+theorem Inv_resumeRecvRead {s : St} (t : Tid) (rv : Option Exc) (hi : Inv g np c0 s) : Inv g np c0 (resumeRecvRead s t rv) := by
+  unfold resumeRecvRead
+  apply Inv_recvAfterRead
+  unfold resumeReadValue
+  simp only []
+  split <;> split <;> inv_same hi
+
+theorem Inv_runTask {s : St} (t : Tid) (hi : Inv g np c0 s) : Inv g np c0 (runTask s t) := by
+  unfold runTask
+  simp only []
+  split
+  · inv_same hi
+  · split
+    · inv_same hi
+    · split
+      · apply Inv_recvLoop; inv_same hi
+      · apply Inv_closeEnter; inv_same hi
+      · apply Inv_sendStart _ _ _ rfl; inv_same hi
+      · apply Inv_sendStart _ _ _ rfl; inv_same hi
+      · apply Inv_sendStart _ _ _ rfl; inv_same hi
+  · split <;> inv_same hi
+  · split
+    · inv_same hi
+    · apply Inv_recvLoop; inv_same hi
+  · apply Inv_resumeRecvRead; inv_same hi
+  · have h1 : Inv g np c0 { setT s t (fun x => { x with mustCancel := false, fut := .none }) with wClosing := true } :=
+      Inv_setWClosing (by inv_same hi)
+    split <;> inv_same h1
+  · split <;> inv_same hi
+  · split
+    · inv_same hi
+    · split
+      · inv_same hi
+      · apply Inv_cliCloseAfterWait; inv_same hi
+  · refine Inv_congr (wire_resumeCloseRead _ _ _) ?_; inv_same hi
+
+theorem Inv_pingTaskDone {s : St} (o : Option Outcome) (hi : Inv g np c0 s) : Inv g np c0 (pingTaskDone s o) := by
+  unfold pingTaskDone
+  simp only []
+  split
+  · inv_same hi
+  · have := Inv_handlePingPongExc (s := s) ‹Exc› hi
+    inv_same this
+  · inv_same hi
+
+theorem wire_hbBegin (s : St) (hb : Nat) : wire (hbBegin s hb) = wire s := by
+  unfold hbBegin
+  simp [wire]
+
+theorem Inv_sendHeartbeat {s : St} (hi : Inv g np c0 s) : Inv g np c0 (sendHeartbeat s) := by
+  unfold sendHeartbeat
+  simp only []
+  split
+  · inv_same hi
+  · split
+    · inv_same hi
+    · split
+      · inv_same hi
+      · next hb _ =>
+        have h2 : Inv g np c0 (sendFrame (hbBegin { s with hbCb := false } hb) .ping 0).1 :=
+          Inv_sendFrame .ping 0 rfl (Inv_congr (wire_hbBegin _ _) (by inv_same hi))
+        split
+        · inv_same h2
+        · apply Inv_pingTaskDone; inv_same h2
+        · apply Inv_pingTaskDone; inv_same h2
+
+theorem Inv_pongNotReceived {s : St} (hi : Inv g np c0 s) : Inv g np c0 (pongNotReceived s) := by
+  unfold pongNotReceived
+  split
+  · split
+    · exact Inv_handlePingPongExc _ hi
+    · exact hi
+  · exact Inv_handlePingPongExc _ hi
+
+theorem Inv_runCb {s : St} (cb : Cb) (hi : Inv g np c0 s) : Inv g np c0 (runCb s cb) := by
+  unfold runCb
+  split
+  · exact Inv_runTask _ hi
+  · exact Inv_congr (wire_connLost _ _) hi
+  · split <;> inv_same hi
+  · exact Inv_sendHeartbeat hi
+  · exact Inv_pongNotReceived hi
+  · inv_same hi
+  · exact Inv_pingTaskDone _ hi
+
+theorem Inv_of_wire_paused {s s' : St} (b : Bool) (h : wire s' = { wire s with paused := b })
+    (hnp : np → b = false) (hsafe : Safe g s' → Safe g s) (hi : Inv g np c0 s) : Inv g np c0 s' := by
+  have e := (Wire.mk.injEq _ _ _ _ _ _ _ _ _ _).mp h
+  obtain ⟨e1, e2, e3, e4, e5⟩ := e
+  apply Inv.mk'
+  · exact e1.trans hi.ccfg
+  · intro h; rw [e4]; exact hnp h
+  · rw [e5, e2]; exact hi.c1
+  · rw [e5]; exact hi.c2
+  · intro hs; rw [e5, e3]; exact hi.c3 (hsafe hs)
+  · intro hs; rw [e5]; exact hi.c4 (hsafe hs)
+
+/-- One transition keeps the wire invariant.  `pauseW` is excluded in the "never write-paused" mode `np`;
+`resumeW` may re-establish the premise `Safe`, so it needs `Safe` beforehand (repaired writer, or not
+paused) unless the strong clauses are switched off (`¬ g`). -/
+theorem Inv_step {s : St} (l : Label) (hp : l = .pauseW → ¬ np) (hr : l = .resumeW → ¬ g ∨ Safe g s)
+    (hi : Inv g np c0 s) : Inv g np c0 (step s l) := by
+  unfold step
+  split
+  · split <;> inv_same hi
+  · split
+    · exact Inv_congr (wire_cancelTask _ _) hi
+    · exact hi
+  · exact Inv_congr (wire_peerFrame _ _) hi
+  · split <;> inv_same hi
+  · split
+    · refine Inv_of_wire_paused true rfl (fun h => absurd h (hp rfl)) ?_ hi
+      intro hs
+      refine ⟨hs.1, ?_⟩
+      rcases hs.2 with h | h
+      · exact Or.inl h
+      · cases h
+    · exact hi
+  · split
+    · have hsafe : ∀ s' : St, Safe g s' → Safe g s := by
+        intro s' hs
+        rcases hr rfl with h | h
+        · exact absurd hs.1 h
+        · exact h
+      simp only []
+      split
+      · exact Inv_of_wire_paused false rfl (fun _ => rfl) (hsafe _) hi
+      · exact Inv_of_wire_paused false rfl (fun _ => rfl) (hsafe _) hi
+      · refine Inv_of_wire_paused false ?_ (fun _ => rfl) (hsafe _) hi
+        simp [wire]
+    · exact hi
+  · split
+    · apply Inv_runCb; inv_same hi
+    · split
+      · exact hi
+      · inv_same hi
+  · split
+    · exact hi
+    · split <;> inv_same hi
+
+theorem Inv_init (cfg : Cfg) : Inv g np cfg (init cfg) := by
+  have h : wire (init cfg) = ⟨cfg, false, false, false, []⟩ := by
+    unfold init; simp only []; split <;> rfl
+  unfold Inv; rw [h]
+  exact ⟨rfl, fun _ => rfl, fun h => by simp [hasClose] at h, by simp [closeCount], fun _ h => by simp [hasClose] at h,
+    fun _ => rfl⟩
+
 end Aio.C13
